@@ -31,6 +31,11 @@ def sym_prms(E, pvar, tag=''):
         p.update(MIN_SEP_VALS=[s1, s2], MIN_SEP_LIMS=[l1])
     elif pvar == 5:
         p.update(EXCLUDE_FOR_BASE_HEIGHT_CALC=['a'], MAX_HITS_OKTA0=E.int(tag + 'k0', 0, None))
+    elif pvar == 6:
+        s1, s2, l1, q = E.real(tag + 'sep1'), E.real(tag + 'sep2'), E.real(tag + 'lim1'), E.real(tag + 'perc')
+        E.assume(And(s1 > 0, s2 > 0, q >= 0, q <= 100))
+        p.update(MIN_SEP_VALS=[s1, s2], MIN_SEP_LIMS=[l1], EXCLUDE_FOR_BASE_HEIGHT_CALC=['a'],
+                 MAX_HITS_OKTA0=E.int(tag + 'k0', 0, None), BASE_LVL_HEIGHT_PERC=q)
     return p
 
 
@@ -220,7 +225,10 @@ def h_group(E, shape, pvar, prop):
     prms = default_prms()
     from ampycloud.utils import utils
     prms = utils.adjust_nested_dict(prms, sym_prms(E, pvar))
-    data = frame({'ceilo': ['a'] * N, 'dt': ds, 'height': hs, 'type': [1] * N, 'slice_id': sid})
+    names = ['a'] * N
+    if prms['EXCLUDE_FOR_BASE_HEIGHT_CALC']:
+        names = [NAMES[E.choose(2, 'ceilo%d' % i)] for i in range(N)]
+    data = frame({'ceilo': names, 'dt': ds, 'height': hs, 'type': [1] * N, 'slice_id': sid})
     ch = new_chunk(data, prms)
     stage = 'metarize(slices)'
     try:
@@ -266,4 +274,131 @@ def h_group(E, shape, pvar, prop):
             cl.append(('groups %d,%d at least the minimum separation apart' % (r - 1, r), hb[r] - hb[r - 1] >= sep))
             E.cover('two groups reported')
         E.cover('a merge happened', len(set(gid)) < len(set(sid)))
+    return cl
+
+
+# ---------------------------------------------------------------------------------------------
+# H-layer: the thirty-hit construction (DESIGN.md 2.6)
+# ---------------------------------------------------------------------------------------------
+FILL_H = [1000.0] * 12 + [1100.0] * 12 + [1500.0] * 6        # oldest ... most recent
+
+
+def gmm_stub(n, X, kind):
+    """Mixture stub: predict = arbitrary function of the sample value into 0..n-1 (components may stay
+    unpopulated, issue #119); bic/aic = arbitrary finite reals."""
+    from models import stubs, npmodel
+    E = core.ENG
+    stubs.ASSUMPTIONS.add('GaussianMixture: predict is an arbitrary function of the sample value into 0..n-1 '
+                          '(possibly leaving components unpopulated); bic/aic are arbitrary finite reals; deterministic')
+    if kind != 'predict':
+        v = E.stub_real('gmm_%s_%d' % (kind, n))
+        if n == 1:
+            stubs.ASSUMPTIONS.add('GaussianMixture: the score of the one-component model is positive (true for samples '
+                                  'rescaled to span [0, 100], the default rescale_0_to_x, and fewer than ~10^4 samples: the '
+                                  'single Gaussian then has a density below 1 everywhere). With negative scores the #119 '
+                                  'guard of ncomp_from_gmm (score := max + 1) would not rule an unpopulated model out.')
+            E.assume(v > 0)
+        return v
+    vals = stubs.flat(X)
+    lab = {}
+    out = []
+    for v in vals:
+        k = stubs._key(v)
+        if k not in lab:
+            lab[k] = E.stub_choose(n, 'gmm%d' % n)
+        out.append(lab[k])
+    return stubs.A(out)
+
+
+def h_layer(E, order, extra_group, lbv, prop):
+    """Inv_G-shaped state with one group of 30 hits (3 distinct heights) and optionally a second one-hit group whose id
+    is an arbitrary non-negative int (row-count abstraction); real metarize('groups') + find_layers()."""
+    from ampycloud import layer as layer_mod
+    from models import stubs
+    stubs.OPTIONS['gmm'] = gmm_stub
+    n = len(FILL_H)
+    hs = list(FILL_H)
+    ds = [-15.0 * (n - 1 - i) for i in range(n)]
+    rows = list(range(n))
+    if order == 'desc':
+        rows = rows[::-1]
+    elif order == 'mixed':
+        rows = rows[1::2] + rows[0::2]
+    hs, ds = [hs[i] for i in rows], [ds[i] for i in rows]
+    gid = [0] * n
+    prms = default_prms()
+    # look-back and percentile are concrete per exploration (size vector): symbolic values would multiply the
+    # paths by the number of breakpoints of floor(n*lookback/100) and of the percentile index (> 1000)
+    lb, q, sep = lbv, 5, E.real('min_sep')
+    E.assume(sep > 0)
+    prms.update(MSA=None, BASE_LVL_LOOKBACK_PERC=lb, BASE_LVL_HEIGHT_PERC=q, MIN_SEP_VALS=[sep], MIN_SEP_LIMS=[])
+    g2 = None
+    if extra_group:
+        g2 = E.int('g2', 1, None)
+        hs.append(9000.0)
+        ds.append(-7.0)
+        gid.append(g2)
+    N = len(hs)
+    data = frame({'ceilo': ['a'] * N, 'dt': ds, 'height': hs, 'type': [1] * N, 'slice_id': list(gid), 'group_id': list(gid)})
+    ch = new_chunk(data, prms)
+    ch._slices = 'computed'
+    stage = 'metarize(groups)'
+    try:
+        with WarningLog():
+            ch.metarize('groups')
+            stage = 'find_layers'
+            ch.find_layers()
+        kind, err = 'ok', None
+    except core.EngineSignal:
+        raise
+    except Exception as e:  # noqa: BLE001
+        kind, err = type(e).__name__, e
+    cl = [('metarize(groups) + find_layers() raise nothing [stage %s]' % stage, kind == 'ok')]
+    if kind != 'ok':
+        E.note('exception', '%s at %s: %s' % (kind, stage, str(err)[:300]))
+        return cl
+    g = ch.groups
+    gc = [fval(x) for x in col(g, 'cluster_id')]
+    r0 = [i for i, c in enumerate(gc) if not is_sym(c) and int(c) == 0][0]
+    ncomp = int(col(g, 'ncomp')[r0])
+    lid = [fval(x) for x in col(ch.data, 'layer_id')]
+    lay0 = []
+    for x in lid[:n]:
+        if not any(bool(sbool(x == y)) for y in lay0):
+            lay0.append(x)
+    E.cover('group split in 2', ncomp == 2)
+    E.cover('group split in 3', ncomp == 3)
+    E.cover('group not split', ncomp <= 1)
+    if prop == 'C08':
+        return cl
+    if prop == 'C05':
+        cl.append(('a group reported with k sub-components yields exactly k layers (one if not split)', len(lay0) == max(1, ncomp)))
+        if g2 is not None:
+            l2 = lid[n]
+            cl.append(('no layer spans two groups (generated ids never meet an inherited id)', And([Not(x == l2) for x in lay0])))
+            cl.append(('n_layers and the layers table match the assignment',
+                       ch.n_layers == len(lay0) + 1 and len(ch.layers) == len(lay0) + 1))
+            E.cover('second group with an id of 100 or more', g2 >= 100)
+        else:
+            cl.append(('n_layers and the layers table match the assignment', ch.n_layers == len(lay0) and len(ch.layers) == len(lay0)))
+        cl.append(('hits unaltered', [fval(x) for x in col(ch.data, 'height')] == hs and [fval(x) for x in col(ch.data, 'dt')] == ds))
+        return cl
+    if prop == 'C06' and ncomp > 1:
+        if shim() or core.ENG.vals.get('#scripted'):
+            # the last predict call of ncomp_from_gmm is the one of the raw best model
+            raw = [c[1] for c in stubs.CALLS if c[0] == 'gmm_predict'][-1]
+        else:
+            import numpy
+            res = layer_mod.ncomp_from_gmm(numpy.array(FILL_H), ncomp_max=3, min_sep=0,
+                                           **ch.prms['LAYERING_PRMS']['gmm_kwargs'])
+            raw = int(res[0])
+        E.cover('split without re-merge', ncomp == raw)
+        if ncomp == raw:
+            lt = ch.layers
+            lc = [fval(x) for x in col(lt, 'cluster_id')]
+            hb = [fval(b) for b, c in zip(col(lt, 'height_base'), lc) if any(bool(sbool(c == y)) for y in lay0)]
+            for i in range(len(hb)):
+                for j in range(i):
+                    d = hb[i] - hb[j]
+                    cl.append(('layers of the split group at least min_sep apart', Or(d >= sep, -d >= sep)))
     return cl
